@@ -115,6 +115,13 @@ func (c18) Generate(seed uint64, tier string, index int) any {
 				ms.Sessions = append(ms.Sessions[:pos], append([]MSess{st}, ms.Sessions[pos:]...)...)
 			}
 			n = len(ms.Sessions)
+			// half of these runs are free-running (real goroutines, wall-clock
+			// deadline): a handler that waits on something that is not a
+			// transport operation (a process-wide semaphore, a lock) is invisible
+			// to the scheduled mode, whose quiescence detection it merely stalls
+			ms.Free = g.R.Bool()
+			ms.Tr = g.TransportFor(12, int64(n)*2*treeBytes(&ms.Src))
+			return &C18Scenario{Mode: "multi", Multi: ms}
 		}
 		ms.Tr = g.TransportFor(12, int64(n)*2*treeBytes(&ms.Src))
 		if !race && g.R.Intn(3) == 0 {
@@ -448,7 +455,7 @@ func runMulti(t *testing.T, ms *MultiScenario, lay Layout, res *Result) {
 			nstalled++
 		}
 	}
-	if out.outcome == kernel.Frozen && nstalled > 0 && !ms.Free {
+	if out.outcome == kernel.Frozen && nstalled > 0 {
 		// only stalled peers are left: everybody else must have finished
 		for i, s := range ms.Sessions {
 			if s.StallAt == 0 && !out.doneAtStop[i] {
@@ -617,6 +624,27 @@ func multiClientFn(ctx context.Context, s MSess, i int, lay Layout, conn rwc) fu
 	}
 }
 
+// stallingConn stops reading for good after limit bytes (a stalled peer).
+type stallingConn struct {
+	rwc
+	limit int64
+	n     int64
+	ctx   context.Context
+}
+
+func (c *stallingConn) Read(p []byte) (int, error) {
+	if c.n >= c.limit {
+		<-c.ctx.Done()
+		return 0, c.ctx.Err()
+	}
+	if int64(len(p)) > c.limit-c.n {
+		p = p[:c.limit-c.n]
+	}
+	n, err := c.rwc.Read(p)
+	c.n += int64(n)
+	return n, err
+}
+
 func execMultiFree(ms *MultiScenario, lay Layout, rw string, out *multiOut) {
 	ctx, cancel := context.WithCancel(context.Background())
 	defer cancel()
@@ -633,6 +661,10 @@ func execMultiFree(ms *MultiScenario, lay Layout, rw string, out *multiOut) {
 	ln := kernel.NewFreeListener()
 	go srv.Serve(ctx, ln)
 	var wg sync.WaitGroup
+	var mu sync.Mutex
+	stopped := false
+	nstalled := 0
+	out.doneAtStop = make([]bool, len(ms.Sessions))
 	for i, s := range ms.Sessions {
 		i, s := i, s
 		capacity := s.CapSC
@@ -640,22 +672,53 @@ func execMultiFree(ms *MultiScenario, lay Layout, rw string, out *multiOut) {
 			capacity = 1 << 16
 		}
 		conn := ln.Dial(capacity, fmt.Sprintf("192.0.2.%d:%d", 1+i%250, 40000+i))
-		fn := multiClientFn(ctx, s, i, lay, conn)
-		wg.Add(1)
+		var rw rwc = conn
+		if s.StallAt > 0 {
+			nstalled++
+			rw = &stallingConn{rwc: conn, limit: s.StallAt, ctx: ctx}
+		}
+		fn := multiClientFn(ctx, s, i, lay, rw)
+		if s.StallAt == 0 {
+			wg.Add(1)
+		}
 		go func() {
-			defer wg.Done()
-			out.errs[i] = fn()
+			err := fn()
+			mu.Lock()
+			if !stopped {
+				out.errs[i] = err
+				out.doneAtStop[i] = true
+			}
+			mu.Unlock()
 			conn.Close()
+			if s.StallAt == 0 {
+				wg.Done()
+			}
 		}()
 	}
 	done := make(chan struct{})
 	go func() { wg.Wait(); close(done) }()
+	limit := 90 * time.Second
+	if nstalled > 0 {
+		limit = 60 * time.Second
+	}
 	select {
 	case <-done:
 		out.outcome = kernel.Finished
-	case <-time.After(90 * time.Second):
-		out.timeout = true
+		if nstalled > 0 {
+			out.outcome = kernel.Frozen // only stalled peers are left
+		}
+	case <-time.After(limit):
+		if nstalled > 0 {
+			out.outcome = kernel.Frozen
+			out.pending = fmt.Sprintf("free-running run: sessions that are not stalled did not finish within %v of wall-clock time", limit)
+		} else {
+			out.timeout = true
+		}
 	}
+	mu.Lock()
+	stopped = true
+	mu.Unlock()
+	cancel()
 	ln.Close()
 	out.srvLog = slog.String()
 }
